@@ -168,7 +168,20 @@ fn gen_pair(src: &mut Src, st: &mut Stats) -> Option<((J, String), (J, String), 
         }
         1 => {
             // number / number
-            match src.below(4) {
+            match src.below(5) {
+                4 => {
+                    // integers at the edges of the signed and unsigned 64-bit ranges against
+                    // each other and against small numbers (all well separated)
+                    let pool = ["18446744073709551615", "18446744073709551000", "9223372036854775808", "9223372036854775807", "9223372036854770000", "-9223372036854775808", "-9223372036854770000", "4611686018427387904", "5", "-5", "0", "1.5", "-2.5e3", "1e19", "-1e19", "1e300"];
+                    let a = src.pick(&pool).to_string();
+                    let b2 = src.pick(&pool).to_string();
+                    let (x, y) = (a.parse::<f64>().unwrap(), b2.parse::<f64>().unwrap());
+                    if a != b2 && !well_separated(x, y) {
+                        st.discard();
+                        return None;
+                    }
+                    Some(((J::Num(numeral_value(&a)), a), (J::Num(numeral_value(&b2)), b2), "number-64-bit-edges"))
+                }
                 0 => {
                     let base = gen_numeral(src, &o);
                     let a = respell_numeral(&base, src);
